@@ -20,6 +20,7 @@ package main
 // then abandoned and the remaining ops of the case answer `skip`).
 
 import (
+	"regexp"
 	"bufio"
 	"context"
 	"encoding/hex"
@@ -45,10 +46,14 @@ import (
 
 func init() { Register("C06", Domain{Gen: c06Gen, Run: c06Run}) }
 
-// A request that has not returned after c06OpTimeout is reported as `hang`. Only Uint32SliceDelete
-// is known to be able to block forever; it gets the short limit, everything else a limit that a
-// loaded machine cannot reach by accident.
-const c06OpTimeout = 4 * time.Second
+var c06LongKeyRe = regexp.MustCompile(`x@[0-9]+`)
+var c06LongRunRe = regexp.MustCompile(`x{1000,}`)
+
+// A request that has not returned after c06OpTimeout is reported as `hang`: a limit that a loaded
+// machine cannot reach by accident.  (Uint32SliceDelete used to block forever on a live key; since
+// the repair of that deadlock it is drawn as often as any other request and has the same limit.
+// If the deadlock comes back, every such request costs the full limit and is reported.)
+const c06OpTimeout = 60 * time.Second
 const c06SlowTimeout = 60 * time.Second
 
 type c06State struct {
@@ -59,11 +64,17 @@ type c06State struct {
 	swamp   string
 	base    int64 // unix ns; client-side relative times are base+offset
 	server  map[int64]bool
+	opStarts []int64 // wall-clock start of every request of the case (not wait / close / restart / compact)
 	dead    bool // a request hung in this case
 	rigDead bool
 }
 
-var c06Kinds = []string{"mem", "p0", "p1", "mems", "p0s", "p1s"}
+// p1 swamps buffer writes; their write ticker is set to an hour so that WHEN a record reaches the
+// file (close, restart, idle close) is decided by the history alone.  The ticker itself is
+// exercised on the kind p1t (1 s interval): there every `wait` of >= 2500 ms is a point at which
+// the ticker has certainly run, and the generator puts such a wait in front of every request
+// whose outcome depends on what has been written (delete, close, restart).
+var c06Kinds = []string{"mem", "p0", "p1", "mems", "p0s", "p1s", "p1t"}
 
 func c06Sanctuary(kind string) string { return "kv" + kind }
 
@@ -79,6 +90,9 @@ func c06Register(r *Rig) {
 		} else {
 			wi := int64(0)
 			if strings.HasPrefix(k, "p1") {
+				wi = 3600
+			}
+			if k == "p1t" {
 				wi = 1
 			}
 			r.Settings.RegisterPattern(pat, false, idle, &settings.FileSystemSettings{WriteIntervalSec: wi, MaxFileSizeByte: 8192, UseChroniclerV2: true})
@@ -171,7 +185,7 @@ func (s *c06State) tsOutStamp(t *timestamppb.Timestamp) string {
 	if t != nil {
 		n := t.Seconds*1e9 + int64(t.Nanos)
 		if n >= s.base && n <= time.Now().UnixNano()+int64(time.Millisecond) {
-			return "T"
+			return s.stampName(n)
 		}
 	}
 	return s.tsOut(t)
@@ -183,13 +197,27 @@ func (s *c06State) tsOut(t *timestamppb.Timestamp) string {
 	}
 	n := t.Seconds*1e9 + int64(t.Nanos)
 	if s.server[n] {
-		return "T"
+		return s.stampName(n)
 	}
 	d := n - s.base
 	if d > -1e15 && d < 1e15 {
 		return "b" + strconv.FormatInt(d, 10)
 	}
 	return "a" + strconv.FormatInt(n, 10)
+}
+
+// a server stamp is written T<j>: j = the number of the request (within the case) during which the
+// server took it — the last request that had started when the clock showed that value.  A stamp
+// that comes back altered (rounded by a reload, copied from another record, …) names another request
+// or is no server stamp at all.
+func (s *c06State) stampName(n int64) string {
+	j := 0
+	for _, t0 := range s.opStarts {
+		if t0 <= n {
+			j++
+		}
+	}
+	return "T" + strconv.Itoa(j)
 }
 
 // mark timestamps produced by the server during this op
@@ -323,9 +351,9 @@ func c06Val(t *hydrapb.Treasure) string {
 	case t.Uint64Val != nil:
 		return "u64:" + strconv.FormatUint(*t.Uint64Val, 10)
 	case t.Float32Val != nil:
-		return fmt.Sprintf("f32:%08x", math.Float32bits(*t.Float32Val))
+		return fmt.Sprintf("f32:%08x", c06F32Bits(*t.Float32Val))
 	case t.Float64Val != nil:
-		return fmt.Sprintf("f64:%016x", math.Float64bits(*t.Float64Val))
+		return fmt.Sprintf("f64:%016x", c06F64Bits(*t.Float64Val))
 	case t.StringVal != nil:
 		return "str:" + hex.EncodeToString([]byte(*t.StringVal))
 	case t.BoolVal != nil:
@@ -500,6 +528,40 @@ func (s *c06State) exec(f []string) string {
 			out = append(out, s.rec(t))
 		}
 		return strings.Join(out, " ")
+	case "mget":
+		// one Get request over three swamp entries: this swamp, a swamp that was never created, this swamp again
+		ghost := sw + "-never"
+		req := &hydrapb.GetRequest{Swamps: []*hydrapb.GetSwamp{{IslandID: island, SwampName: sw, Keys: f[1:]},
+			{IslandID: island, SwampName: ghost, Keys: f[1:]}, {IslandID: island, SwampName: sw, Keys: f[1:]}}}
+		resp, err := gw.Get(ctx, c06Wire(req, &hydrapb.GetRequest{}))
+		if err != nil {
+			return c06Err(err)
+		}
+		if resp == nil {
+			return "nilnil"
+		}
+		resp = c06Wire(resp, &hydrapb.GetResponse{})
+		out := []string{"mget"}
+		for i, gs := range resp.Swamps {
+			if i > 0 {
+				out = append(out, "/")
+			}
+			want := sw
+			if i == 1 {
+				want = ghost
+			}
+			if gs.SwampName != want {
+				out = append(out, "?name")
+			}
+			if !gs.IsExist {
+				out = append(out, "noswamp")
+				continue
+			}
+			for _, t := range gs.Treasures {
+				out = append(out, s.rec(t))
+			}
+		}
+		return strings.Join(out, " ")
 	case "getall":
 		resp, err := gw.GetAll(ctx, c06Wire(&hydrapb.GetAllRequest{IslandID: island, SwampName: sw}, &hydrapb.GetAllRequest{}))
 		if err != nil {
@@ -638,6 +700,13 @@ func (s *c06State) exec(f []string) string {
 			return c06Err(err)
 		}
 		return f[0] + " ok"
+	case "compact":
+		// CompactSwamp: forced rewrite of the swamp's file (observably a no-op on the records)
+		_, err := gw.CompactSwamp(ctx, c06Wire(&hydrapb.CompactSwampRequest{IslandID: island, SwampName: sw}, &hydrapb.CompactSwampRequest{}))
+		if err != nil {
+			return c06Err(err)
+		}
+		return "compact ok"
 	case "size":
 		resp, err := gw.Uint32SliceSize(ctx, c06Wire(&hydrapb.Uint32SliceSizeRequest{IslandID: island, SwampName: sw, Key: f[1]}, &hydrapb.Uint32SliceSizeRequest{}))
 		if err != nil {
@@ -810,7 +879,7 @@ func (s *c06State) execInc(f []string, t0 int64) string {
 			return "nilnil"
 		}
 		r = c06Wire(r, &hydrapb.IncrementFloat32Response{})
-		return s.incReply(fmt.Sprintf("f32:%08x", math.Float32bits(r.Value)), r.IsIncremented, r.Metadata, t0, now())
+		return s.incReply(fmt.Sprintf("f32:%08x", c06F32Bits(r.Value)), r.IsIncremented, r.Metadata, t0, now())
 	case "f64":
 		bits := func(s string) float64 { n, _ := strconv.ParseUint(s, 16, 64); return math.Float64frombits(n) }
 		req := &hydrapb.IncrementFloat64Request{IslandID: island, SwampName: sw, Key: key, IncrementBy: bits(by), SetIfNotExist: ine, SetIfExist: ie}
@@ -825,7 +894,7 @@ func (s *c06State) execInc(f []string, t0 int64) string {
 			return "nilnil"
 		}
 		r = c06Wire(r, &hydrapb.IncrementFloat64Response{})
-		return s.incReply(fmt.Sprintf("f64:%016x", math.Float64bits(r.Value)), r.IsIncremented, r.Metadata, t0, now())
+		return s.incReply(fmt.Sprintf("f64:%016x", c06F64Bits(r.Value)), r.IsIncremented, r.Metadata, t0, now())
 	}
 	return "bad-op"
 }
@@ -881,6 +950,7 @@ func c06Run(in *bufio.Scanner, w *bufio.Writer) {
 			s.swamp = name.New().Sanctuary(c06Sanctuary(s.kind)).Realm("r" + s.runTag).Swamp("c" + s.caseNo).Get()
 			s.base = time.Now().UnixNano()
 			s.server = map[int64]bool{}
+			s.opStarts = nil
 			fmt.Fprintln(w, line)
 			continue
 		}
@@ -976,6 +1046,16 @@ func c06Run(in *bufio.Scanner, w *bufio.Writer) {
 			}
 			continue
 		}
+		if f[0] != "compact" {
+			s.opStarts = append(s.opStarts, time.Now().UnixNano())
+		}
+		// long keys are written `x@N` in the protocol (N times the letter x on the wire)
+		for i := range f {
+			f[i] = c06LongKeyRe.ReplaceAllStringFunc(f[i], func(m string) string {
+				n, _ := strconv.Atoi(m[2:])
+				return strings.Repeat("x", n)
+			})
+		}
 		res := make(chan string, 1)
 		go func() {
 			defer func() {
@@ -987,6 +1067,7 @@ func c06Run(in *bufio.Scanner, w *bufio.Writer) {
 		}()
 		select {
 		case r := <-res:
+			r = c06LongRunRe.ReplaceAllStringFunc(r, func(m string) string { return "x@" + strconv.Itoa(len(m)) })
 			fmt.Fprintln(w, r)
 		case <-time.After(c06TimeoutOf(f[0])):
 			fmt.Fprintln(w, "hang")
@@ -1066,7 +1147,27 @@ func c06IntVal(rng *rand.Rand, ty string) string {
 	return strconv.Itoa(rng.Intn(200))
 }
 
-var c06F64s = []float64{0, 0, 1, -1, 0.5, 2.25, 1e10, -3.75, 100}
+var c06F64s = []float64{0, 0, 1, -1, 0.5, 2.25, 1e10, -3.75, 100, math.Copysign(0, -1), math.NaN(), math.Inf(1)}
+
+// increments: the usual steps, both zeros (an increment by zero is refused), NaN, infinity
+var c06FBys = []float64{1, -1, 0.5, 2.25, 0, 1, -1, math.Copysign(0, -1), math.NaN(), math.Inf(-1)}
+
+// every NaN is written as the canonical quiet NaN: which NaN an operation produces (sign, payload)
+// is the processor's choice, and the Lean driver's Float cannot tell NaNs apart.  What is checked
+// is "is a NaN", not its payload.
+func c06F64Bits(f float64) uint64 {
+	if f != f {
+		return 0x7ff8000000000000
+	}
+	return math.Float64bits(f)
+}
+
+func c06F32Bits(f float32) uint32 {
+	if f != f {
+		return 0x7fc00000
+	}
+	return math.Float32bits(f)
+}
 
 func c06Value(rng *rand.Rand) string {
 	switch rng.Intn(16) {
@@ -1074,9 +1175,9 @@ func c06Value(rng *rand.Rand) string {
 		ty := c06Pick(rng, c06IntTys)
 		return ty + ":" + c06IntVal(rng, ty)
 	case 5:
-		return fmt.Sprintf("f64:%016x", math.Float64bits(c06Pick(rng, c06F64s)))
+		return fmt.Sprintf("f64:%016x", c06F64Bits(c06Pick(rng, c06F64s)))
 	case 6:
-		return fmt.Sprintf("f32:%08x", math.Float32bits(float32(c06Pick(rng, c06F64s))))
+		return fmt.Sprintf("f32:%08x", c06F32Bits(float32(c06Pick(rng, c06F64s))))
 	case 7, 8:
 		return "str:" + hex.EncodeToString([]byte(c06Pick(rng, []string{"", "", "a", "hello", "0"})))
 	case 9:
@@ -1139,11 +1240,11 @@ func c06IncOp(rng *rand.Rand, key string) string {
 	var by, cv string
 	switch ty {
 	case "f64":
-		by = fmt.Sprintf("%016x", math.Float64bits(c06Pick(rng, []float64{1, -1, 0.5, 2.25, 0})))
-		cv = fmt.Sprintf("%016x", math.Float64bits(c06Pick(rng, c06F64s)))
+		by = fmt.Sprintf("%016x", c06F64Bits(c06Pick(rng, c06FBys)))
+		cv = fmt.Sprintf("%016x", c06F64Bits(c06Pick(rng, c06F64s)))
 	case "f32":
-		by = fmt.Sprintf("%08x", math.Float32bits(float32(c06Pick(rng, []float64{1, -1, 0.5, 2.25, 0}))))
-		cv = fmt.Sprintf("%08x", math.Float32bits(float32(c06Pick(rng, c06F64s))))
+		by = fmt.Sprintf("%08x", c06F32Bits(float32(c06Pick(rng, c06FBys))))
+		cv = fmt.Sprintf("%08x", c06F32Bits(float32(c06Pick(rng, c06F64s))))
 	default:
 		_, _, signed, _ := c06IntRange(ty)
 		if signed {
@@ -1152,6 +1253,17 @@ func c06IncOp(rng *rand.Rand, key string) string {
 			by = c06Pick(rng, []string{"1", "1", "2", "5", "100", "0", "255"})
 		}
 		cv = c06Pick(rng, []string{"0", "0", "1", "2", "5", "10", "100"})
+		// Int8/Int16/Uint8/Uint16 travel in 32-bit fields: arguments outside the width of the request
+		// (the handlers cast them), among them steps that are zero only after the cast
+		if _, _, _, bits := c06IntRange(ty); bits <= 16 && rng.Intn(4) == 0 {
+			if signed {
+				by = c06Pick(rng, []string{"300", "-129", "256", "65536", "-32769", "65537", "128"})
+				cv = c06Pick(rng, []string{"300", "-200", "256", "65541", "-129", "128"})
+			} else {
+				by = c06Pick(rng, []string{"300", "256", "65536", "65537", "511"})
+				cv = c06Pick(rng, []string{"300", "256", "261", "65536", "65541"})
+			}
+		}
 	}
 	cond := "-"
 	if rng.Intn(2) == 0 {
@@ -1179,8 +1291,10 @@ func c06RandOp(rng *rand.Rand, meta bool) string {
 			items = append(items, c06Item(rng, k, meta && rng.Intn(3) == 0))
 		}
 		return "set " + co + " " + strings.Join(items, " ")
-	case r < 34:
+	case r < 32:
 		return "get " + strings.Join(c06SomeKeys(rng, 3), " ")
+	case r < 34:
+		return "mget " + strings.Join(c06SomeKeys(rng, 3), " ")
 	case r < 38:
 		return "getall"
 	case r < 42:
@@ -1197,7 +1311,7 @@ func c06RandOp(rng *rand.Rand, meta bool) string {
 		return "issw"
 	case r < 77:
 		return c06IncOp(rng, c06Pick(rng, c06Keys))
-	case r < 88:
+	case r < 83:
 		return "push " + c06U32Pairs(rng)
 	case r < 89:
 		return "u32del " + c06U32Pairs(rng)
@@ -1230,6 +1344,13 @@ var c06Corpus = []c06CorpusCase{
 	{[]string{"mem", "p1"}, []string{"set 11 k0|u8:1|||||", "inc u8 k0 1 eq:5 - 0||1|u2|b3600000000000", "get k0"}},
 	{[]string{"mem", "p1"}, []string{"size k0", "issw", "count"}},
 	{[]string{"mem", "p1"}, []string{"arek k0 k1", "count", "set 00 k0|i64:5|||||", "set 01 k0|i64:5|||||"}},
+	// the same key more than once inside ONE request: every entry is decided against the state the
+	// previous entries of that request left behind
+	{[]string{"mem", "p1"}, []string{"set 10 k0|i64:1||||| k0|i64:2||||| k1|str:61||||| k1|str:61|||||", "get k0 k1", "set 11 k2|i64:1||||| k2|i64:2||||| k2|i64:2|||||", "get k2 k2",
+		"set 01 k3|i64:1||||| k0|i64:7||||| k0|i64:7|||||", "gbk k0 k3 k0 k2", "arek k0 k3 k0", "del k1 k1 k3", "shift k2 k0 k2", "getall", "push k4:1 k4:2,1", "get k4", "del k4 k0", "issw"}},
+	// ShiftByKeys / Delete on records that have already been written to the file (write interval 0):
+	// the reply carries the value and the metadata the record had
+	{[]string{"p0", "mem"}, []string{"set 11 k0|str:68656c6c6f|a1000000000|u1||| k1|i64:7||||| k2|u32s:1,2|||||", "shift k0 k2", "getall", "shift k1 k0", "issw"}},
 	// fixed-width wrap-around of every integer type, and the increment conditions at their boundary
 	{[]string{"mem"}, []string{"set 11 k0|u8:255||||| k1|i8:127||||| k2|i64:9223372036854775807||||| k3|u64:18446744073709551615||||| k4|i32:-2147483648||||| k5|u16:65535|||||",
 		"inc u8 k0 1 - - -", "inc i8 k1 1 - - -", "inc i64 k2 1 - - -", "inc u64 k3 2 - - -", "inc i32 k4 -1 - - -", "inc u16 k5 2 - - -", "getall",
@@ -1264,11 +1385,6 @@ func c06Gen(rng *rand.Rand, tier string, w *bufio.Writer) {
 		ops := make([]string, 0, l)
 		for j := 0; j < l; j++ {
 			o := c06RandOp(rng, meta)
-			// nearly every Uint32SliceDelete on a live key ends in the (listed) self-deadlock and costs
-			// the op timeout: (before the repair of that deadlock) costs the op timeout: one case in six (thorough: every second)
-			for strings.HasPrefix(o, "u32del") && !(i%6 == 0 || (tier == "thorough" && i%2 == 0)) {
-				o = c06RandOp(rng, meta)
-			}
 			ops = append(ops, o)
 		}
 		emit(kind, ops)
